@@ -110,9 +110,16 @@ PFX = [(167837696 + 256 * i, 24) for i in range(8)] + [(167903232, 16), (2886729
 SHARD = {1: [0] * 10, 2: [0, 1, 0, 1, 0, 1, 0, 1, 1, 1], 3: [1, 0, 0, 2, 1, 0, 0, 2, 0, 0]}
 
 NBR = 167772161                      # 10.0.0.1, the observing neighbour
+NBR2 = 167772169                     # 10.0.0.9, the second observing neighbour
 LASN = 65001
 LLGR_STALE = 4294901766
 NHS = [167772418, 167772419, 3232235777]
+# IPv6 prefixes 2001:db8:1::/48, 2001:db8:2::/48, 2001:db8:3:1::/64 and their shards (same `(probe K …)`)
+PFX6 = [(0x20010db8000100000000000000000000, 48), (0x20010db8000200000000000000000000, 48),
+        (0x20010db8000300010000000000000000, 64)]
+SHARD6 = {1: [0, 0, 0], 2: [1, 0, 0], 3: [0, 2, 2]}
+NHS6 = [0x20010db8ffff00000000000000000001, 0x20010db8ffff00000000000000000002]
+PFX_BIG = 167968768           # 10.3.0.0/24, 10.3.1.0/24, ... (one shard only)
 
 
 def sources(r, role):
@@ -165,6 +172,13 @@ def asets(r):
     return out
 
 
+def policy_nonh(r):
+    while True:
+        p = policy(r)
+        if "(addr " not in p:
+            return p
+
+
 def policy(r):
     k = r.below(7)
     if k == 0:
@@ -208,20 +222,55 @@ def gen_case(r):
         if i not in idxs:
             idxs.append(i)
     pfxs = ["(%d %d %d)" % (PFX[i][0], PFX[i][1], SHARD[k][i]) for i in idxs]
+    # a second family now and then (receivers that leave the next hop alone, policies that set none):
+    # IPv6 prefixes have their own RIB and id allocator per shard, their own ExportMap / PendingTx
+    dual = role in ("ibgp", "rrc", "rsc") and r.chance(1, 3)
+    six = set()
+    if dual:
+        for j in range(1 + r.below(3)):
+            six.add(len(pfxs))
+            pfxs.append("(6 %d %d %d)" % (PFX6[j][0], PFX6[j][1], SHARD6[k][j]))
+            idxs.append(None)
+    # once in a while more than 64 destinations in one shard (second word of the id allocator)
+    big = k == 1 and r.chance(1, 30)
+    nbig = 0
+    if big:
+        nbig = 66 + r.below(8)
+        for j in range(nbig):
+            pfxs.append("(%d 24 0)" % (PFX_BIG + 256 * j))
+            idxs.append(None)
     ats = asets(r)
-    pols = [policy(r) for _ in range(1 + r.below(3))]
-    pol0 = policy(r) if r.chance(1, 3) else "none"
+    pol = (lambda rr: policy_nonh(rr)) if dual else policy
+    pols = [pol(r) for _ in range(1 + r.below(3))]
+    pol0 = pol(r) if r.chance(1, 3) else "none"
+    # the global export policy assignment; the neighbour's own one (pol0, `reset`) overrides it
+    gpol0 = pol(r) if r.chance(1, 4) else "none"
     # import policy rejecting one ORIGIN value: re-announcing a (source, prefix, path-id) with another
     # attribute set flips the path between filtered and visible
     imp = "(origin %d)" % r.pick([0, 1, 2]) if r.chance(2, 5) else "none"
+    # a second observing neighbour on the same fan-out, with another role / send-max / own policy
+    nbr2 = "none"
+    if r.chance(1, 3):
+        roles2 = ["ibgp", "rrc", "rsc"] if dual else ["ebgp", "ibgp", "rrc", "rsc", "confed"]
+        role2 = r.pick([x for x in roles2 if x != role] or roles2)
+        if role2 in ("ibgp", "rrc"):
+            cluster2 = "(some %d)" % r.pick([16909060, 16843009]) if r.chance(5, 6) else "none"
+        else:
+            cluster2 = "none" if r.chance(5, 6) else "(some 16909060)"
+        mx2 = r.pick([m for m in (1, 2, 3) if m != mx])
+        nbr2 = "((ctx %s %d (v4 167772417) none %d) (sess (v4 %d) %s %d ipv4) (pol0 %s))" % (
+            role2, LASN, confed, NBR2, cluster2, mx2, pol(r) if r.chance(1, 3) else "none")
     live = {}                                  # (src, pfx, rpid) -> True ; rough RIB picture
+
+    def nh_of(p):
+        return "(v6 %d)" % r.pick(NHS6) if p in six else "(v4 %d)" % r.pick(NHS)
 
     def ann(src=None, pfx=None):
         s = r.below(len(srcs)) if src is None else src
         p = r.below(len(idxs)) if pfx is None else pfx
         rp = r.pick([0, 0, 0, 0, 1, 2])
         live[(s, p, rp)] = True
-        return "(ann %d %d %d %d (v4 %d))" % (s, p, rp, r.below(len(ats)), r.pick(NHS))
+        return "(ann %d %d %d %d %s)" % (s, p, rp, r.below(len(ats)), nh_of(p))
 
     def wd():
         if live and r.chance(7, 8):
@@ -237,6 +286,10 @@ def gen_case(r):
     # LLGR_STALE (S16); the master theorem's computed hypothesis excludes these histories
     llgr_ok = r.chance(1, 5)
     pre = [ann() for _ in range(r.pick([0, 0, 1, 2, 4]))]
+    if big:
+        # fill the shard beyond 64 ids before the session starts
+        first = len(idxs) - nbig
+        pre += [ann(0, first + j) for j in range(nbig)]
     ops = []
     n = r.pick([5, 10, 20, 40, 60])
     while len(ops) < n:
@@ -257,7 +310,7 @@ def gen_case(r):
                 del live[key]
             ops.append("(down %d)" % s)
         elif kind == "reset":
-            ops.append("(reset %s)" % r.pick(["none"] + [str(i) for i in range(len(pols))]))
+            ops.append("(%s %s)" % (r.pick(["reset", "reset", "greset"]), r.pick(["none"] + [str(i) for i in range(len(pols))])))
         elif kind == "llgr":
             peers = [i for i, x in enumerate(srcs) if x.startswith("(peer")]
             if peers:
@@ -266,7 +319,7 @@ def gen_case(r):
             # re-announce a live (source, prefix, path-id), best or not, with another attribute set
             if live:
                 s_, p_, rp_ = r.pick(sorted(live))
-                ops.append("(ann %d %d %d %d (v4 %d))" % (s_, p_, rp_, r.below(len(ats)), r.pick(NHS)))
+                ops.append("(ann %d %d %d %d %s)" % (s_, p_, rp_, r.below(len(ats)), nh_of(p_)))
             else:
                 ops.append(ann())
         elif kind == "nhflap":
@@ -294,8 +347,8 @@ def gen_case(r):
             p = r.below(len(idxs))
             for _ in range(2 + r.below(2)):
                 ops.append(ann(None, p))
-    return "(c01 (shards %d) %s %s (pol0 %s) (imp %s) (srcs %s) (pfxs %s) (asets %s) (pols %s) (pre%s) (ops%s))" % (
-        k, ctx, sess, pol0, imp, " ".join(srcs), " ".join(pfxs), " ".join(ats), " ".join(pols),
+    return "(c01 (shards %d) %s %s (pol0 %s) (gpol0 %s) (imp %s) (nbr2 %s) (srcs %s) (pfxs %s) (asets %s) (pols %s) (pre%s) (ops%s))" % (
+        k, ctx, sess, pol0, gpol0, imp, nbr2, " ".join(srcs), " ".join(pfxs), " ".join(ats), " ".join(pols),
         "".join(" " + o for o in pre), "".join(" " + o for o in ops))
 
 
